@@ -16,7 +16,7 @@ REPO = "/repo"
 BIN = os.path.join(VERIF, "target/release/garden-verif")
 OUT = os.path.join(VERIF, "out")
 EVIDENCE = os.path.join(VERIF, "evidence")
-KNOWN_FINDINGS = os.path.join(VERIF, "known_findings.jsonl")
+KNOWN_FINDINGS = os.path.join(VERIF, "known_findings.txt")
 
 MASK = (1 << 64) - 1
 
@@ -212,13 +212,24 @@ class Executor:
 # ----------------------------------------------------------------------
 
 def load_known_findings():
+    """Lines of /verif/known_findings.txt:
+         known: property=<id> key=<key prefix> <what fails>
+         fixed: property=<id> <commit> <what failed>
+    A `fixed` entry suppresses nothing.  The file is never written at run time."""
+    import re
     out = []
     if os.path.exists(KNOWN_FINDINGS):
         for line in open(KNOWN_FINDINGS):
             line = line.strip()
             if not line or line.startswith("#"):
                 continue
-            out.append(json.loads(line))
+            m = re.match(r"^known:\s+property=(\S+)\s+key=(\S+)\s+(.*)$", line)
+            if m:
+                out.append({"status": "known", "property": m.group(1), "key_prefix": m.group(2), "what": m.group(3)})
+                continue
+            m = re.match(r"^fixed:\s+property=(\S+)\s+(\S+)\s+(.*)$", line)
+            if m:
+                out.append({"status": "fixed", "property": m.group(1), "commit": m.group(2), "what": m.group(3)})
     return out
 
 
